@@ -1014,3 +1014,110 @@ func R19NumberExact(c *Ctx) {
 		c.R.Anchor(rule, "the cty.ParseNumberVal calls of hclsyntax.numberLitValue and json.parseNumber")
 	}
 }
+
+// R19InnermostScope — a name resolves in the innermost scope that defines it.
+func R19InnermostScope(c *Ctx) {
+	const rule = "R19-innermost-scope"
+	c.R.Rule(rule, "where yaotl walks an EvalContext chain (through .parent / Parent()) to resolve a variable or function name, the walk is left on the path where the current scope has the name (a return or a break under the successful lookup): a walk that goes on after a hit lets an outer definition overwrite the inner one, so iteration variables of for-expressions are shadowed by same-named outer variables", 1)
+	n := 0
+	for _, fn := range c.P.ModuleFuncs(func(p string) bool { return p == PkgYaotl || p == PkgYaotl+"/hclsyntax" }) {
+		for _, l := range naturalLoops(fn) {
+			// a header phi stepping through .parent
+			var cur *ssa.Phi
+			for _, in := range l.header.Instrs {
+				ph, ok := in.(*ssa.Phi)
+				if !ok {
+					break
+				}
+				for i, e := range ph.Edges {
+					if !l.body[l.header.Preds[i]] {
+						continue
+					}
+					if DerivesFromNarrowCalls(e, func(v ssa.Value) bool {
+						if IsFieldLoad(PkgYaotl+".EvalContext", "parent")(v) {
+							return true
+						}
+						cl, ok := v.(*ssa.Call)
+						return ok && CalleeName(cl) == "(*Havoc/pkg/profile/yaotl.EvalContext).Parent"
+					}) {
+						cur = ph
+					}
+				}
+			}
+			if cur == nil {
+				continue
+			}
+			// hits: the true successor of a test inside the loop that is a successful lookup in the current scope's
+			// table, or key == name in a range over it
+			var hits []*ssa.BasicBlock
+			for b := range l.body {
+				iff, ok := b.Instrs[len(b.Instrs)-1].(*ssa.If)
+				if !ok {
+					continue
+				}
+				isHit := false
+				if ex, ok := iff.Cond.(*ssa.Extract); ok && ex.Index == 1 {
+					if lk, ok := ex.Tuple.(*ssa.Lookup); ok && DerivesFrom(lk.X, func(v ssa.Value) bool {
+						return IsFieldLoad(PkgYaotl+".EvalContext", "Variables")(v) || IsFieldLoad(PkgYaotl+".EvalContext", "Functions")(v)
+					}) {
+						isHit = true
+					}
+				}
+				if bo, ok := iff.Cond.(*ssa.BinOp); ok && bo.Op == token.EQL {
+					for _, side := range []ssa.Value{bo.X, bo.Y} {
+						if ex, ok := side.(*ssa.Extract); ok {
+							if _, isNext := ex.Tuple.(*ssa.Next); isNext && ex.Index == 1 {
+								isHit = true
+							}
+						}
+					}
+				}
+				if isHit {
+					hits = append(hits, b.Succs[0])
+				}
+			}
+			if len(hits) == 0 {
+				continue
+			}
+			n++
+			construct := "scope walk stops at the first scope that defines the name"
+			bad := ""
+			for _, hb := range hits {
+				// can the walk go on to the next scope from here?
+				stop := map[*ssa.BasicBlock]bool{}
+				for b := range l.body {
+					_ = b
+				}
+				reaches := false
+				seen := map[*ssa.BasicBlock]bool{}
+				var walk func(b *ssa.BasicBlock)
+				walk = func(b *ssa.BasicBlock) {
+					if seen[b] || reaches || !l.body[b] {
+						return
+					}
+					seen[b] = true
+					for _, s := range b.Succs {
+						if s == l.header {
+							reaches = true
+							return
+						}
+						walk(s)
+					}
+				}
+				walk(hb)
+				_ = stop
+				if reaches {
+					bad = c.pos(hb.Instrs[0].Pos())
+				}
+			}
+			if bad == "" {
+				c.R.Ok(rule, FuncShort(fn), construct, c.pos(l.header.Instrs[0].Pos()), "a hit leaves the walk", true)
+			} else {
+				c.R.Bad(rule, FuncShort(fn), construct, bad, "after the name was found in a scope the walk continues to the enclosing scopes: the outermost definition wins instead of the innermost")
+			}
+		}
+	}
+	if n == 0 {
+		c.R.Anchor(rule, "a scope-chain walk with a lookup in yaotl")
+	}
+}
